@@ -536,7 +536,8 @@ def discharge(ctx, chk, g, with_main=False):
                     v = cv_ if isinstance(cv_, int) else None
                     if v is None and path_of(n[3]).split("::")[-1] == "BITS" and len(path_of(n[3]).split("::")) >= 2:
                         v = {"u8": 8, "u16": 16, "u32": 32, "Word": 32}.get(path_of(n[3]).split("::")[-2])
-                if v is None or not (0 <= v < 32):
+                # a shift by exactly 32 is in range on a 64-bit value (bit64 / the LiteralBit64 arm of assemble_into)
+                if v is None or not (0 <= v < 32 or (v == 32 and name in ("bit64", "assemble_into"))):
                     bad.append(show(n))
             if n[0] == "binary" and n[1] in ("/", "%"):
                 v = int_of(n[3])
@@ -544,8 +545,6 @@ def discharge(ctx, chk, g, with_main=False):
                     v = consts.get("WORD_NUM_BYTES")
                 if not v:
                     bad.append(show(n))
-        # `v >> 32` on a u64 is in range: accept 32 when the operand is a 64-bit value (bit64 / LiteralBit64 arm)
-        bad = [b for b in bad if not (b.endswith(">> 32)") or b.endswith("<< 32)")) or name not in ("bit64", "assemble_into")]
         chk.check(R3, not bad, "const-shifts-and-divisors:%s::%s" % (ty, name), "non-constant or out-of-range shift/divisor: %s" % bad, raw.where(name, ty))
 
     # termination
